@@ -180,6 +180,7 @@ func GenWorld(seed int64, prop string, idx int, steps int) WorldCfg {
 	mixed := r.Intn(3) == 0 // mixed PreVote/CheckQuorum flags
 	pv, cq := r.Intn(2) == 0, r.Intn(2) == 0
 	cfg.Lease = prop != "C11" && r.Intn(12) == 0
+	cfg.SplitHS = r.Intn(5) == 0
 	cfg.Nodes = map[uint64]NodeCfg{}
 	for _, id := range cfg.IDs {
 		nc := NodeCfg{
